@@ -36,7 +36,11 @@ int main (int argc, char** argv)
     out ("deth", det (h)); out ("detu", det (u));
     Jones<double> rec = d * (convert (h) * convert (u));
     out_jones ("rec", rec); out_jones ("jj", j);
-    if (!symbolic) {
+    bool nonsingular = true;      // the property speaks of non-singular matrices; the search mode also proposes singular ones
+#ifndef SYMX_SYMBOLIC
+    nonsingular = std::abs (det (j)) > 1e-9 * (1.0 + norm (j));
+#endif
+    if (!symbolic && nonsingular) {
       expect ("d^2 = det J", d * d, det (j)); expect ("det h = 1", det (h), 1.0, 1e-8); expect ("det u = 1", det (u), 1.0, 1e-8);
       expect_true ("h positive definite", h.s0 > 0);
       for (unsigned i=0; i<4; i++) expect ("d h u = J", rec[i], j[i], 1e-8);
